@@ -32,12 +32,14 @@ FundamentalBy(n, ps) ==
 ResultWitness(e) ==
   /\ IsNat(e.d) /\ IsNat(e.h)
   /\ Has(e, "n") => (FromInt(e.n) = e.d /\ IsFundamental(e.n))
+  /\ Has(e, "pw") => \A i \in 1..Len(e.pw) : IsPrimeI(e.pw[i][1]) /\ IsBPlus(e.d, e.pw[i][1], e.pw[i][2])
   /\ Has(e, "facs") => ((\A i \in 1..Len(e.facs) : ChainOK(e.facs[i])) /\ FundamentalBy(e.d, FacPrimes(e)))
 
 \* ---- the property
 ClassNumberOK(e) ==
   /\ Has(e, "hfile") /\ e.hfile = e.h                       \* the classnumber file says the same
   /\ Has(e, "n") => e.h = FromInt(HCount(e.n))              \* and it is the number of reduced forms
+  /\ Has(e, "pw") => KilledByH(e.d, e.h, e.pw)              \* and (any size) it kills the classes of prime forms
 
 StructureOK(e) ==
   /\ InvariantsOK(e.h, e.inv)
